@@ -70,7 +70,7 @@ def run(tier, seed):
             c32 += c32b; s32 += s32b
         # random conformant encodings of larger images: expectation computed by TLC
         rnd = []
-        nrand = 150 if tier == "quick" else 10000
+        nrand = 150 if tier == "quick" else 40000
         for k in range(nrand):
             w = rng.choice([1, 2, 3, 7, 8, 9, 15, 16, 17, 31, 33, 40, 64])
             h = rng.choice([1, 2, 3, 4, 5, 8, 16]) if w <= 33 else rng.choice([1, 2, 3])
